@@ -152,7 +152,7 @@ def make_vias(unicode, prefix):
                 elif op in ("gat", "gats", "touch"):
                     getattr(client, op)(key, expire=0)
                 elif op == "gets_many":
-                    client.gets_many([key, "L"])
+                    client.gets_many(iter([key, "L"]))        # a one-shot iterator of keys
                 elif op in ("set", "add", "append"):
                     getattr(client, op)(key, b"v")
                 elif op == "cas":
@@ -160,7 +160,7 @@ def make_vias(unicode, prefix):
                 elif op == "set_many":
                     client.set_many({key: b"v", "L": b"w"})
                 elif op == "delete_many":
-                    client.delete_many(["L", key])
+                    client.delete_many(iter(["L", key]))
                 elif op == "incr":
                     client.incr(key, 1)
             except MemcacheIllegalInputError:
